@@ -141,6 +141,14 @@ ConnectRefused ==
      ELSE UNCHANGED <<inQ, outQ, crashed>>
   /\ UNCHANGED <<lifeVars, netVars, goVars, closeVars, regLeft, sendVars, fired, discConn, cause>>
 
+\* a Connect that fails after the connected test (dial error, TLS handshake failure): the per-connection
+\* state has been initialised and that is all - no event, not connected, a later Connect works (C06)
+ConnectFails ==
+  /\ ConnectWhileUp /\ upTries < 1 /\ mu = NoOne /\ ~connected
+  /\ upTries' = upTries + 1
+  /\ inQ' = <<>> /\ outQ' = <<>>
+  /\ UNCHANGED <<lifeVars, netVars, goVars, closeVars, regLeft, sendVars, fired, discConn, cause, crashed>>
+
 \* another goroutine, woken by DISCONNECTED, reconnects
 OtherReconnect ==
   /\ Reconnect = "other" /\ gen >= 1 /\ fired[gen].disc >= 1 /\ CanConnect
@@ -349,7 +357,7 @@ GoStep(g) == RecvRead(g) \/ RecvEnq(g) \/ SendDeq(g) \/ SendWrite(g) \/ SendCtx(
           \/ PingTick(g) \/ PingRaw(g) \/ PingCtx(g)
 CloseStep(c) == CloseEnter(c) \/ CloseDrain(c) \/ CloseWaited(c) \/ CloseDisp(c)
 Env == \E g \in Gens : SrvSend(g) \/ SrvEOF(g) \/ ExtCancel(g) \/ SrvWriteFault(g) \/ SrvStall(g)
-Next == \/ InitialConnect \/ RegisterSend \/ ConnectRefused \/ OtherReconnect \/ Env
+Next == \/ InitialConnect \/ RegisterSend \/ ConnectRefused \/ ConnectFails \/ OtherReconnect \/ Env
         \/ \E g \in Gens : GoStep(g)
         \/ \E c \in Callers : UserClose(c) \/ CloseStep(c)
         \/ \E s \in Senders : UserRawBegin(s) \/ UserRawEnq(s)
